@@ -94,7 +94,8 @@ def _direct_one(i):
 def s_direct(pp):
     """Every single operation of the E1 menus on the seed world (quantities of at least 1 uL / 0.1 mg / 1 umol / 1 mU:
     amounts near the resolution of the coarsest storage setting are not a fair comparison)."""
-    acts = [a for a in C03.full_alphabet() + alphabets.geometry_sweep()[::7] + alphabets.unit_sweep()[::3] if _not_tiny(a)]
+    acts = [a for a in C03.full_alphabet() + alphabets.geometry_sweep()[::7] + alphabets.unit_sweep()[::3]
+            if _not_tiny(a) and not (a['op'] == 'fill_to' and a.get('q') == '500 uL')]       # (a fill exactly to the brim is a tie)
     _G.update(pp=pp, direct=acts)
     return dict(par.pmap(_direct_one, list(range(len(acts)))))
 
